@@ -128,8 +128,14 @@ class Injector:
                 exc = rec.exc
         elif self.via == 'dispatch':
             sim.direct_dispatch = True
+            # a daemon that listens on several addresses hands dispatch_message the address the datagram ARRIVED on: every seventh forgery arrives on another
+            # local address than the one the IKE_SA lives on (same family or the other one)
+            dst = self.my_addr
+            if self.n % 7 == 0:
+                dst = ('192.0.2.177' if ':' not in self.my_addr else '2001:db8::177') if self.n % 14 else ('2001:db8::177' if ':' not in self.my_addr else '192.0.2.177')
+                ck.count('inject.arriving_on_another_local_address')
             try:
-                rec = sim.inject(ep, src, self.my_addr, data)
+                rec = sim.inject(ep, src, dst, data)
             finally:
                 sim.direct_dispatch = False
             replies = [d.data for d in sim.net[n0:]]
@@ -472,6 +478,7 @@ def run(ck):
 
 def verdict(ck):
     c = ck.counters
+    ck.floor('forgeries arriving on another local address than the IKE_SA\'s', c['inject.arriving_on_another_local_address'], 2000)
     ck.floor('forgeries colliding with an authentic datagram under a non-cryptographic digest', c['collision_forgeries'], 300)
     ck.floor('injections judged', c['inject.loop'] + c['inject.dispatch'] + c['inject.sa'], 20000)
     ck.floor('loop turns with an authentic request and a forgery ready on two sockets, only the request answered', c['same_turn.only_the_authentic_request_answered'], 30)
